@@ -1887,9 +1887,11 @@ handle_include_directive(const string &args, const YYLTYPE &loc) {
     if (expr[0] == '"' && expr[expr.size() - 1] == '"') {
       filename = expr.substr(1, expr.size() - 2);
 
-      if (_infile->_parent == nullptr) {
+      if (_infile == nullptr || _infile->_parent == nullptr) {
         // If we're currently processing a top-level file, record the include
         // directive.  We don't need to record includes from included files.
+        // (_infile is null if this directive was the unterminated last line
+        // of the top-level file.)
         _quote_includes.insert(filename);
       }
     } else if (expr[0] == '<' && expr[expr.size() - 1] == '>') {
@@ -1901,7 +1903,7 @@ handle_include_directive(const string &args, const YYLTYPE &loc) {
         angle_quotes = true;
       }
 
-      if (_infile->_parent == nullptr) {
+      if (_infile == nullptr || _infile->_parent == nullptr) {
         // If we're currently processing a top-level file, record the include
         // directive.  We don't need to record includes from included files.
         _angle_includes.insert(filename);
